@@ -1,4 +1,5 @@
 import YardlProofs.Proto
+import YardlProofs.ProtoFail
 import YardlProofs.ProtoMatlab
 
 /-!
@@ -27,6 +28,25 @@ the first rejected call with these machines.
 
 namespace Yardl.C07
 open Yardl.Proto
+
+/-- writers whose implementation of a step raises and that are used further (`YardlModel/ProtoFail.lean`): the C++ writer is where it was;
+    the Python writer keeps a stream ended that the failed call ended implicitly — for every shape and every sequence of calls,
+    failing ones anywhere -/
+theorem cpp_writer_with_failing_writes_iff (p : Shape) (ops : List WOpF) :
+    (runWSF (specWcppF p) ⟨0, false⟩ ops).map (·.k) = runWF (cppWF p) 0 ops :=
+  cppWF_run p ops ⟨0, false⟩ rfl
+
+theorem py_writer_with_failing_writes_iff (p : Shape) (ops : List WOpF) :
+    (runWSF (specWpyF p) ⟨0, false⟩ ops).map encW = runWF (pyWF p) 0 ops := by
+  have := pyWF_run p ops ⟨0, false⟩ (by intro h; simp at h)
+  simpa [encW] using this
+
+theorem failed_write_keeps_the_implicit_end (p : Shape) (s s' : WPos) (i : Nat) (hi : i = s.k + 1) (ho : s.openS = true)
+    (h : specWpyF p s (.fail i) = some s') : s' = ⟨i, false⟩ ∧ specWpyF p s' (.op (.write s.k)) = none :=
+  Yardl.Proto.failed_write_keeps_the_implicit_end p s s' i hi ho h
+
+/-- the hypothesis is met: inside stream 0 of the shape [stream, value], the failing write of step 1 is accepted by the state check -/
+example : specWpyF [true, false] ⟨0, true⟩ (.fail 1) = some ⟨1, false⟩ := by decide
 
 theorem cpp_writer_iff (p : Shape) (ops : List WOp) :
     (runWS (specWcpp p) ⟨0, false⟩ ops).map (·.k) = runW (cppW p) 0 ops :=
